@@ -93,12 +93,33 @@ func xmlKnownGuard(b []byte) string {
 		if e.Kind == 'P' && !piPseudoAttrs.MatchString(e.Data) {
 			return "xml-pi-data-rewritten"
 		}
+		if e.Kind == 'D' && doctypeQuotedDelim(e.Data) {
+			return "xml-doctype-literal-delimiter"
+		}
 	}
 	items, err := xmlCanon(evs, xmlEntities(evs))
 	if err != nil {
 		return ""
 	}
 	return c06Guarded(items)
+}
+
+// doctypeQuotedDelim: the dependency's lexer finds the end of a DOCTYPE declaration by tracking double quotes
+// only (an apostrophe-quoted literal containing `>`, `[`, `]` or `"` derails it) and its bracket state is a flag,
+// not a depth.  True when that rule does not end the declaration where XML ends it (known finding).
+func doctypeQuotedDelim(dt string) bool {
+	inString, inBrackets := false, false
+	for i := 9; i < len(dt); i++ {
+		c := dt[i]
+		if c == '"' {
+			inString = !inString
+		} else if (c == '[' || c == ']') && !inString {
+			inBrackets = c == '['
+		} else if c == '>' && !inString && !inBrackets {
+			return i != len(dt)-1
+		}
+	}
+	return true
 }
 
 func validCSS(b []byte) (bool, string, bool) {
@@ -149,6 +170,10 @@ func validHTML(b []byte) (bool, string, bool) {
 	}
 	return true, "", false
 }
+
+// known finding js-infinity-assignment-target: `Infinity` as the operand of ++/-- or the target of an assignment is
+// printed as (1/0), which is not an assignment target
+var c09InfinityTarget = regexp.MustCompile(`(\+\+|--)[\s(]*Infinity\b|\bInfinity[\s)]*(\+\+|--|=[^=]|[-+*/%&|^]=|<<=|>>=|>>>=|\*\*=|&&=|\|\|=|\?\?=|\s+(in|of)\b|[,\]}][^;]*\]?\s*=[^=])`)
 
 var c09AwaitIdent = regexp.MustCompile(`\bawait[ \t]*[\r\n;,)=]`)
 var c09SVGStyleAmp = regexp.MustCompile(`(?is)<style\b[^>]*>(?:[^<]|<!\[CDATA\[.*?\]\]>)*&|\bstyle\s*=\s*(?:"[^"]*&|'[^']*&)`)
@@ -255,6 +280,9 @@ func C09(run *core.Run) {
 		}
 		if (l.name == "js" || l.name == "html") && c09LetIdent.Match(in) {
 			return "GUARD:js-let-identifier", nil
+		}
+		if (l.name == "js" || l.name == "html") && c09InfinityTarget.Match(in) {
+			return "GUARD:js-infinity-assignment-target", nil
 		}
 		if (l.name == "js" || l.name == "html") && c09AwaitIdent.Match(in) {
 			return "GUARD:js-await-identifier", nil
